@@ -202,6 +202,9 @@ func runCheck(prop, tier string) int {
 				case "inconclusive":
 					obInconclusive++
 				case "violated":
+					if os.Getenv("GOSYM_SHOWVIOL") != "" {
+						fmt.Printf("  [debug] violated %s#%s: %s\n", job.Name, ob.ID, trunc(ob.Details+" "+ob.Cond, 300))
+					}
 					site := job.Name + "#" + ob.ID
 					if v, ok := seenSite[site]; ok {
 						v.Instances++
@@ -245,7 +248,7 @@ func runCheck(prop, tier string) int {
 	var cases []NativeCase
 	var idx []int
 	for i, v := range cands {
-		if v.Job != nil && v.Native != nil {
+		if v.Job != nil && v.Native != nil && !v.Job.NoNative {
 			cases = append(cases, NativeCase{Harness: v.Job.Harness, Model: v.Native})
 			idx = append(idx, i)
 		}
@@ -583,6 +586,9 @@ func (cr *checkRun) validatePredictions(seed int64) (int, []string) {
 		for ji, jr := range cr.results {
 			if len(picks) >= maxPicks || time.Since(vstart) > vbudget {
 				break
+			}
+			if cr.jobs[ji].NoNative {
+				continue
 			}
 			var ok []*PathResult
 			for _, p := range jr.Paths {
